@@ -115,7 +115,7 @@ theorem invA_finishCall {g : Cfg} {s : S} (r : S × Ret) (hi : InvA g s) (hc : s
   · simp only
     split
     · rename_i he
-      exact invA_grow hi hg (fun _ => isEmpty_eq_true he)
+      exact invA_grow hi (hg.trans (u := stopTimer r.1) ⟨rfl, rfl, rfl, id⟩) (fun _ => isEmpty_eq_true he)
     · rename_i he
       exact invA_arm hi hc hg (isEmpty_ne_true he)
   · exact invA_closeNow_grow hi hg
@@ -276,11 +276,11 @@ theorem invK_flushLoop (g : Cfg) : ∀ (fuel : Nat) (s : S) (ks : List KAns),
     · -- drained: c.resetRead()
       rename_i hwl
       obtain ⟨k1, k2, k3, k4, k5⟩ := hk
-      have hD := D_cResetRead g s
+      have hD := D_cResetRead g (stopTimer s)
       simp only [D, Prod.mk.injEq] at hD
       obtain ⟨d1, d2, d3, _, _, _⟩ := hD
       cases hm : g.mode <;> cases hr : s.reg <;>
-        (constructor <;> simp_all [cResetRead, pResetRead, kctl])
+        (constructor <;> simp_all [cResetRead, pResetRead, kctl, stopTimer])
     · rename_i d off tl hwl
       simp only
       split
@@ -336,7 +336,7 @@ theorem calm_flushLoop (g : Cfg) : ∀ (fuel : Nat) (s : S) (ks : List KAns), Ca
     intro s ks
     unfold flushLoop
     split
-    · exact calm_cResetRead g s
+    · exact Calm.trans (t := stopTimer s) ⟨rfl, rfl, rfl, id, rfl, rfl⟩ (calm_cResetRead g _)
     · simp only
       split
       · exact ih s ks
@@ -599,7 +599,7 @@ theorem invA_evEnd (g : Cfg) (s : S) (hi : InvA g s) : InvA g (evEnd g s) := by
         have hce := h1.cev
         have hcr := h1.cre
         have hcn := h1.cnr
-        constructor <;> simp [closeNow]
+        constructor <;> simp [closeWE, closeNow, stopTimer]
         · exact hn
         · exact hr
         · exact hce
@@ -607,11 +607,40 @@ theorem invA_evEnd (g : Cfg) (s : S) (hi : InvA g s) : InvA g (evEnd g s) := by
         · exact hcn
     · exact h1
 
+/-- the arming invariant does not mention the deadline fields -/
+theorem InvA.timer {g : Cfg} {s t : S} (h : InvA g s) (hd : D t = D s) (he : E t = E s) : InvA g t :=
+  invA_grow h ⟨he, by simpa [D] using (congrArg (·.1) hd), by simpa [D] using (congrArg (·.2.1) hd),
+    fun hne => by rw [show t.wl = s.wl by simpa [D] using (congrArg (·.2.2.1) hd)]; exact hne⟩
+    (fun hw => by rw [show t.wl = s.wl by simpa [D] using (congrArg (·.2.2.1) hd)]; exact hw)
+
+theorem invA_closeWE {g : Cfg} {s : S} (hi : InvA g s) : InvA g (closeWE s) :=
+  invA_closeNow (hi.timer (t := stopTimer s) rfl rfl)
+
 theorem invA_close (g : Cfg) (s : S) (hi : InvA g s) : InvA g (close s) := by
   unfold close
   split
   · exact hi
-  · exact invA_closeNow hi
+  · exact invA_closeWE hi
+
+theorem invA_setWriteDeadline (g : Cfg) (s : S) (z : Bool) (hi : InvA g s) : InvA g (setWriteDeadline s z) := by
+  unfold setWriteDeadline
+  split
+  · exact hi
+  · exact hi.timer rfl rfl
+
+theorem invA_timerExpire (g : Cfg) (s : S) (hi : InvA g s) : InvA g (timerExpire s) := by
+  unfold timerExpire
+  split
+  · exact hi.timer rfl rfl
+  · exact hi
+
+theorem invA_timerFire (g : Cfg) (s : S) (hi : InvA g s) : InvA g (timerFire s) := by
+  unfold timerFire
+  split
+  · exact hi
+  · split
+    · exact hi.timer rfl rfl
+    · exact invA_closeWE (hi.timer (t := { s with firePending := false }) rfl rfl)
 
 theorem invA_step (g : Cfg) (s : S) (op : Op) (hd : InvD g s) (hi : InvA g s) : InvA g (step g s op) := by
   cases op with
@@ -623,6 +652,9 @@ theorem invA_step (g : Cfg) (s : S) (op : Op) (hd : InvD g s) (hi : InvA g s) : 
   | evTake o i e ks => exact invA_evTake g s o i e ks hi
   | evEnd => exact invA_evEnd g s hi
   | close => exact invA_close g s hi
+  | setWriteDeadline z => exact invA_setWriteDeadline g s z hi
+  | timerExpire => exact invA_timerExpire g s hi
+  | timerFire => exact invA_timerFire g s hi
 
 theorem inv_run (g : Cfg) (ops : List Op) : ∀ (s : S), InvD g s → InvA g s → InvD g (run g s ops) ∧ InvA g (run g s ops) := by
   induction ops with
